@@ -203,7 +203,7 @@ Qed.
 Lemma one_h_zrank b : handler_one (h_zrank b).
 Proof.
   unfold handler_one, h_zrank, need. intro args. destruct (nargs args <? 2); [exact I|].
-  intros now d. cbv zeta. destruct (a1 args) as [|x r]; [reflexivity|].
+  intros now d. cbv zeta.
   destruct (opt o_WITHSCORES args >? 1).
   - apply lift_one. intros [rk|] d'; reflexivity.
   - apply lift_one. intros [rk|] d'; [reflexivity|]. destruct b; reflexivity.
